@@ -1,6 +1,7 @@
 import Oracle.Proto
 import MV.Model.LFQueue
 import MV.Model.MPSC
+import MV.Model.RingUnbounded
 import MV.Spec.ConcQueue
 namespace Oracle.Queues
 open MV.Model
@@ -80,6 +81,9 @@ def facts : Suite where
     | ["facts", "mpsc.go", "Push"] => ((), MPSC.pushProg)
     | ["facts", "mpsc.go", "Pop"] => ((), MPSC.popProg)
     | ["facts", "mpsc.go", "Empty"] => ((), MPSC.emptyProg)
+    | ["facts", "ring_unbounded.go", "Write"] => ((), RingUnbounded.writeProg)
+    | ["facts", "ring_unbounded.go", "Close"] => ((), RingUnbounded.closeProg)
+    | ["facts", "ring_unbounded.go", "process"] => ((), RingUnbounded.processProg)
     | _ => ((), "bad-op")
 
 /-! ## judge of concurrent histories -/
